@@ -255,5 +255,4 @@ func runC04(c *Ctx) {
 			c.add(o.Verdict, o.Construct, o.Pos, o.Detail)
 		}
 	}
-	runSIB(c, "R8")
 }
